@@ -1,4 +1,5 @@
 import SameVerif.Lemmas.LinkSync
+import SameVerif.Spec.FrontEnd2
 /-
   What the front-end assumptions of one burst say about each tick of `body ++ tail`
   (support for C01): sync hits, power history, equalizer bytes.
@@ -17,26 +18,26 @@ theorem xs_tail (body tail : List Tick) (t : Nat) (h1 : body.length ≤ t) (h2 :
     (body ++ tail)[t] = tail[t - body.length]'(by rw [List.length_append] at h2; omega) :=
   List.getElem_append_right h1
 
-theorem noHit_early (H : BurstObserved pl lead body tail acq rel) (c : LCfg) (s : LState) (t : Nat)
+/-- no hit at a body tick before `acq + 31`: by hypothesis (`BTNoHit`), stated on the model's state -/
+theorem noHit_early {c : LCfg} {s1 : LState} (N : BTNoHit c s1 body tail acq) (t : Nat)
     (h1 : t < acq + 31) (h2 : t < body.length) :
-    NoHit c s ((body ++ tail)[t]'(by rw [List.length_append]; omega)).1 := by
-  rw [xs_body body tail t h2]
-  exact Or.inr (Or.inl (H.open_late t h2 h1))
+    NoHit c (lrunState c s1 ((body ++ tail).take t)) ((body ++ tail)[t]'(by rw [List.length_append]; omega)).1 :=
+  N.early t h1 _ (List.getElem?_eq_getElem _)
 
-theorem noHit_tail (H : BurstObserved pl lead body tail acq rel) (c : LCfg) (s : LState) (t : Nat)
+/-- no hit at a tail tick: by hypothesis -/
+theorem noHit_tail {c : LCfg} {s1 : LState} (N : BTNoHit c s1 body tail acq) (t : Nat)
     (h1 : body.length ≤ t) (h2 : t < (body ++ tail).length) :
-    NoHit c s ((body ++ tail)[t]).1 := by
-  rw [xs_tail body tail t h1 h2]
-  exact Or.inr (Or.inl (H.tail_closed _ (List.getElem_mem _)))
+    NoHit c (lrunState c s1 ((body ++ tail).take t)) ((body ++ tail)[t]).1 :=
+  N.late t h1 _ (List.getElem?_eq_getElem _)
 
-theorem open_body (H : BurstObserved pl lead body tail acq rel) (t : Nat)
+theorem open_body (H : BurstObserved' pl body tail acq rel) (t : Nat)
     (h1 : acq + 31 ≤ t) (h2 : t < body.length) :
     ((body ++ tail)[t]'(by rw [List.length_append]; omega)).1.openOk = true := by
   rw [xs_body body tail t h2]
   exact H.open_ok t h2 h1
 
 /-- once 32 correct bits are in the correlator, its error is the window error of the frame -/
-theorem err_body (H : BurstObserved pl lead body tail acq rel) (c : LCfg) (s : LState) (t : Nat)
+theorem err_body (H : BurstObserved' pl body tail acq rel) (c : LCfg) (s : LState) (t : Nat)
     (h1 : acq + 31 ≤ t) (h2 : t < body.length) :
     errOf (lrunState c s ((body ++ tail).take t)) ((body ++ tail)[t]'(by rw [List.length_append]; omega)).1
       = werr (frameOf pl) t := by
@@ -53,7 +54,7 @@ theorem err_body (H : BurstObserved pl lead body tail acq rel) (c : LCfg) (s : L
     rw [H.bits_ok _ hm (by omega), bitsOf_getD]
   rw [hb]
 
-theorem head_true (H : BurstObserved pl lead body tail acq rel) (c : LCfg) (s : LState) (t : Nat)
+theorem head_true (H : BurstObserved' pl body tail acq rel) (c : LCfg) (s : LState) (t : Nat)
     (h1 : acq + 31 ≤ t) (h2 : t < body.length + 31 + rel) (h3 : t < (body ++ tail).length) :
     headOf (lrunState c s ((body ++ tail).take t)) ((body ++ tail)[t]).1 = true := by
   rw [headOf_run c s (body ++ tail) t (by omega) h3]
@@ -63,7 +64,7 @@ theorem head_true (H : BurstObserved pl lead body tail acq rel) (c : LCfg) (s : 
   · rw [xs_tail body tail _ (by omega) (by omega)]
     exact H.rel_hold _ _ (by omega)
 
-theorem head_false (H : BurstObserved pl lead body tail acq rel) (c : LCfg) (s : LState) (t : Nat)
+theorem head_false (H : BurstObserved' pl body tail acq rel) (c : LCfg) (s : LState) (t : Nat)
     (h2 : body.length + 31 + rel ≤ t) (h3 : t < (body ++ tail).length) :
     headOf (lrunState c s ((body ++ tail).take t)) ((body ++ tail)[t]).1 = false := by
   rw [headOf_run c s (body ++ tail) t (by omega) h3]
@@ -71,7 +72,7 @@ theorem head_false (H : BurstObserved pl lead body tail acq rel) (c : LCfg) (s :
   exact H.rel_drop _ _ (by omega)
 
 /-- the equalizer's decision at the byte tick that ends correlator byte `q` is transmitted byte `q - 3` -/
-theorem eq_byte (H : BurstObserved pl lead body tail acq rel) (q : Nat) (h3 : 3 ≤ q)
+theorem eq_byte (H : BurstObserved' pl body tail acq rel) (q : Nat) (h3 : 3 ≤ q)
     (hq : q - 3 < (frameOf pl).length) (hlt : 8 * q + 7 < (body ++ tail).length) :
     ((body ++ tail)[8 * q + 7]).2 = (frameOf pl).getD (q - 3) 0 := by
   have hlen := H.body_len
